@@ -218,6 +218,8 @@ class Obs(object):
         return self is o
 
     def __call__(self, comp, broker):
+        if not getattr(comp, "_verif_generated", False):
+            return          # (the default group holds the shipped registry points too: not part of the program, not logged)
         self.log.append(("obs", self.name, getattr(comp, "__name__", repr(comp))))
         if self.raises:
             raise Boom("observer " + self.name)
@@ -532,7 +534,9 @@ def gen_program(st, flavour, tier):
             for i in rf.sample(cands, rf.randint(2, min(3, len(cands)))):
                 nodes[i]["out"] = oc
                 nodes[i]["xshare"] = 0
-    if flavour == "C02" and rk.random() < 0.15:
+    if flavour == "C02" and rk.random() < 0.15 and not case.get("sac") and not case["graph_drop"]:
+        # (not when the evaluated graph is pruned -- a dropped key or the hydrated-archive pruning removes the ordering
+        # constraints that run THROUGH the pruned component, and "down-stream" would no longer mean "later")
         # a component that flips the enabled switch of a component DOWN-stream of itself while the evaluation is under
         # way (dr.set_enabled from a component body, as a configuration-loading component or an observer may do): the
         # switch is looked at right before a component is processed.  Down-stream only: every valid order has the
@@ -554,6 +558,21 @@ def gen_program(st, flavour, tier):
             cfgs.append({"name": nm, "enabled": rk.random() < 0.5})
         case["enable_cfg"] = {"default_component_enabled": rk.random() < 0.7, "configs": cfgs}
     return case
+
+
+def toggles_sound(case):
+    """A switch may only be flipped by a component every valid order puts before the switch's owner: the owner is
+    down-stream of the toggler in the graph that is evaluated (no pruned keys in between), one toggler per switch."""
+    nodes = case["nodes"]
+    seen = set()
+    for i, nd in enumerate(nodes):
+        for j, _st in nd.get("toggles") or []:
+            if case.get("sac") or case.get("graph_drop"):
+                return False
+            if j in seen or j >= len(nodes) or j == i or i not in closure(nodes, [j]):
+                return False
+            seen.add(j)
+    return True
 
 
 def rerun_candidates(case):
@@ -1435,6 +1454,9 @@ def execute_once(case, driver):
             r.clock = world.clock
             r.forced_order = getattr(world, "forced_order", None)
             r.pending_at_return = getattr(world, "pending_at_return", 0)
+            # the table of the default group mixes the program with ~860 shipped registry points whose hashes are not
+            # seeded: which valid order the engine picks among the program's components is then up to the interpreter
+            r.unordered = driver.get("entry") == "group_object"
             r.faults_fired = world.faults_fired
     return r
 
@@ -1916,6 +1938,10 @@ class EngineCheck(Check):
 
     def execute(self, case):
         driver = case["driver"]
+        if not toggles_sound(case):
+            # (only reachable through shrinking: an edge or a pruning option changed under a toggle)
+            return {"digest": "invalid", "sig": "invalid", "violations": [], "stats": {"faults_fired": {}, "drivers": {}, "probes": {"unsound_case_skipped": 1}},
+                    "nontrivial": False, "sim_seconds": 0.0, "distinct": {}}
         r = execute_once(case, driver)
         if driver["kind"] == "rerun":
             m1 = model(case, disabled=driver["late_enable"])
@@ -1939,7 +1965,7 @@ class EngineCheck(Check):
             for k, v in r.faults_fired.items():
                 stats["faults_fired"][k] = stats["faults_fired"].get(k, 0) + v
                 nontrivial = True
-            log.append(r.ev)
+            log.append(sorted(r.ev, key=repr) if getattr(r, "unordered", False) else r.ev)
             log.append(sorted(r.sig["vals"].items()))
             log.append(r.sig["excs"])
             log.append(sorted(r.sig["miss"].items()))
